@@ -303,6 +303,8 @@ func main() {
 			return runRedial(args[1:], false)
 		case "redials":
 			return runRedial(args[1:], true)
+		case "redialq":
+			return runRedialCap(args[1:])
 		case "overlap":
 			return runOverlap(args[1:])
 		case "leak":
